@@ -232,7 +232,9 @@ def colour_domain(view):
 def capacities(view):
     """Vec bookkeeping: len <= capacity, capacities far below the address-space limit (doubling cannot overflow)"""
     b, u = view.buffer, view.unused
-    return [z3.ULE(b.len, b.cap), z3.ULE(b.cap, bv(1 << 40, 64)), z3.ULE(u.len, u.cap), z3.ULE(u.cap, bv(1 << 40, 64))]
+    # free-list capacity <= 2 * buffer length: it only ever doubles when it is full, and it holds at most len-1 slots;
+    # the arena grows by that capacity, so one growth step at most triples the buffer (C11's storage bound)
+    return [z3.ULE(b.len, b.cap), z3.ULE(b.cap, bv(1 << 40, 64)), z3.ULE(u.len, u.cap), z3.ULE(u.cap, b.len + b.len)]
 
 
 def link_typed(view):
@@ -255,10 +257,10 @@ def stale_edge(view, in_tree, x, xfree):
     return z3.And(xfree, pfree, back), p
 
 
-def stale_acyclic_witness(view, in_tree, tag):
+def stale_acyclic_witness(view, in_tree, tag, rk=None):
     """the stale back-linked parent relation among free slots is acyclic (ghost rank strictly decreases along it):
     a stale child link always goes from an earlier-freed slot to a later-freed one"""
-    rk = [z3.BitVec(f'rk{i}_{tag}', 8) for i in range(view.n)]
+    rk = rk if rk is not None else [z3.BitVec(f'rk{i}_{tag}', 8) for i in range(view.n)]
     out = []
     for x in range(1, view.n):
         e, p = stale_edge(view, in_tree, x, z3.Not(in_tree[x]))
@@ -285,17 +287,21 @@ def k10(k):
     return z3.ZeroExt(2, k) + 1
 
 
-def inv_witness(view, tag):
+def inv_witness(view, tag, wit=None):
     """Representation invariant in witness form (ghost in-tree flag, depth, black height, key interval per slot).
-    Returns (list of conjuncts, it[] flags)."""
+    Returns (list of conjuncts, it[] flags).  `wit` supplies explicit witness terms instead of fresh ghost variables."""
     n = view.n
     P, L, R, C, K = view.P, view.L, view.R, view.C, view.K
     root = view.root
-    it = [z3.Bool(f'it{i}_{tag}') for i in range(n)]
-    dp = [z3.BitVec(f'dp{i}_{tag}', 8) for i in range(n)]
-    bh = [z3.BitVec(f'bh{i}_{tag}', 8) for i in range(n)]
-    lo = [z3.BitVec(f'lo{i}_{tag}', KW + 2) for i in range(n)]
-    hi = [z3.BitVec(f'hi{i}_{tag}', KW + 2) for i in range(n)]
+    if wit is None:
+        it = [z3.Bool(f'it{i}_{tag}') for i in range(n)]
+        dp = [z3.BitVec(f'dp{i}_{tag}', 8) for i in range(n)]
+        bh = [z3.BitVec(f'bh{i}_{tag}', 8) for i in range(n)]
+        lo = [z3.BitVec(f'lo{i}_{tag}', KW + 2) for i in range(n)]
+        hi = [z3.BitVec(f'hi{i}_{tag}', KW + 2) for i in range(n)]
+        rk = None
+    else:
+        it, dp, bh, lo, hi, rk = wit['it'], wit['dp'], wit['bh'], wit['lo'], wit['hi'], wit['rk']
     pick = view.pick
     valid = view.valid
     INF = (1 << KW) + 1
@@ -331,7 +337,7 @@ def inv_witness(view, tag):
         g.append(z3.Or(l == EMPTY32, l != r))
         f.append(z3.Implies(it[i], z3.And(g)))
     f.append(z3.If(root == EMPTY32, cnt == 0, pick(it, root)))
-    f += stale_acyclic_witness(view, it, tag)
+    f += stale_acyclic_witness(view, it, tag, rk)
     u = view.unused
     f.append(u.len == bv(n - 1, 64) - cnt)
     f.append(z3.ULE(u.len, u.cap))
@@ -394,7 +400,7 @@ def inv_closed(view):
         redred.append(z3.Implies(in_tree[i], z3.And(rr)))
     G['links'] = links
     G['redred'] = redred
-    G['colour'] = [z3.Implies(in_tree[i], z3.ULE(C[i], 1)) for i in range(1, n)]
+    G['colour'] = [z3.ULE(C[i], 1) for i in range(n)]       # type invariant of the Color enum, every slot
     G['linktyped'] = link_typed(view)
     G['stale'] = stale_acyclic_closed(view, in_tree)
     bst = []
@@ -524,3 +530,39 @@ def height_closed(view, in_tree, extra):
             d = d + z3.If(alive[k][i], bv(1, 8), bv(0, 8))
         h = z3.If(z3.And(in_tree[i], z3.UGT(d, h)), d, h)
     return h
+
+
+def explicit_witness(view, in_tree, extra):
+    """witness terms computed from the closed form (used by the lemma InvC => exists w. InvW)"""
+    n = view.n
+    ups, alive = extra['ups'], extra['alive']
+    INF = (1 << KW) + 1
+    it = [x if isinstance(x, z3.ExprRef) else z3.BoolVal(z3.is_true(x)) for x in in_tree]
+    dp, bh, lo, hi, rk = [bv(0, 8)], [bv(0, 8)], [bv(0, KW + 2)], [bv(INF, KW + 2)], [bv(0, 8)]
+    for i in range(1, n):
+        d = bv(0, 8)
+        for k in range(1, n - 1):
+            d = d + z3.If(alive[k][i], bv(1, 8), bv(0, 8))
+        dp.append(d)
+        black_i = z3.If(view.C[i] == 1, bv(1, 8), bv(0, 8))
+        bh.append(extra['blackref'] - (extra['cnts'][i - 1] - black_i))
+        l, h = bv(0, KW + 2), bv(INF, KW + 2)
+        for k in range(n - 2, 0, -1):
+            b = ups[k][i]
+            prev = ups[k - 1][i]
+            kb = k10(view.pick(view.K, b))
+            l = z3.If(z3.And(alive[k][i], view.pick(view.R, b) == prev), kb, l)
+            h = z3.If(z3.And(alive[k][i], view.pick(view.L, b) == prev), kb, h)
+        lo.append(l)
+        hi.append(h)
+        # stale rank = number of stale back-linked steps from i
+        cur = bv(i, 32)
+        al = z3.Not(it[i])
+        steps = bv(0, 8)
+        for k in range(n - 1):
+            e, p = stale_edge(view, it, cur, z3.And(view.valid(cur), z3.Not(view.pick(it, cur))))
+            al = z3.And(al, e)
+            steps = steps + z3.If(al, bv(1, 8), bv(0, 8))
+            cur = p
+        rk.append(steps)
+    return {'it': it, 'dp': dp, 'bh': bh, 'lo': lo, 'hi': hi, 'rk': rk}
